@@ -46,6 +46,21 @@ get_mut = Fn(F, "get_mut", impl=IMPL, impl_header=IMPL, slot="util", ret="res", 
     ensures=[C("decl", "*res == old(self).decls@[item_ref.0 as int]", ["C15"]),
              C("frame", "final(self).decls@ == old(self).decls@.update(item_ref.0 as int, *final(res)) && final(self).globals == old(self).globals && final(self).report_as == old(self).report_as", ["C15"])])
 
+get_displayable_name = Fn(F, "get_displayable_name", impl=IMPL, impl_header=IMPL, slot="util", mode="stub", ret="res", key="SymbolManager::get_displayable_name", ensures=[])
+get_by_name = Fn(F, "get_by_name", impl=IMPL, impl_header=IMPL, slot="util", ret="res", key="SymbolManager::get_by_name", props=["C15", "C03"],
+    requires=[C("wf", "self.wf()", ["C03"])],
+    ensures=[
+        C("found_iff_the_level_rule_finds_it", "(match res { Ok(r) => Some(r), Err(_) => None::<util::ItemRef<T>> }) == (if hierarchy_level > ctx.hierarchy@.len() { None } else {"
+          " self.spec_traverse(self.spec_parent(None, texts(ctx.hierarchy@.subrange(0, hierarchy_level as int))), texts(hierarchy@)) })", ["C15"]),
+        C("unknown_name_is_an_error", "res is Err ==> final(report).msgs() > old(report).msgs()", ["C15", "C03"]),
+        C("ok_is_clean", "res is Ok ==> final(report).msgs() == old(report).msgs() && final(report).errors() == old(report).errors()", ["C03"]),
+        C("parents_balanced", "final(report).parents() == old(report).parents()", ["C03"]),
+        C("result_exists", "res is Ok ==> res->Ok_0.0 < self.decls@.len()", ["C03"]),
+    ],
+    sig_rewrites=[Rewrite("where S: std::borrow::Borrow<str> + std::fmt::Debug", "where S: std::borrow::Borrow<str>", rule="R1", why="Debug bound dropped (no Debug specs in the verified set)")],
+    rewrites=[Rewrite(r"hierarchy\s*\.iter\(\)\s*\.map\(\|s\| s\.borrow\(\)\.to_string\(\)\)\s*\.collect::<Vec<String>>\(\)", "verif_to_strings(hierarchy)", regex=True, rule="R16",
+                      why="iterator adapter chain (only used to print the unknown name) -> prelude wrapper with no contract")])
+
 PARENT = "old(self).spec_parent(None, texts(ctx.hierarchy@.subrange(0, hierarchy_level as int)))"
 get_children_mut = Fn(F, "get_children_mut", impl=IMPL, impl_header=IMPL, slot="util", mode="verify", ret="res", key="SymbolManager::get_children_mut",
     requires=[C("ref_ok", "old(self).ref_ok(parent_ref)")],
@@ -93,7 +108,7 @@ UNIT = Unit(
         Type(F, "struct", "SymbolDecl", slot="util", attrs=["#[verifier::accept_recursive_types(T)]"]),
         Type(F, "enum", "SymbolKind", slot="util", derive="Clone, Copy"),
         Type(F, "struct", "SymbolContext", slot="util"),
-        get, get_children, traverse, get_parent, try_get_by_name, get_mut, get_children_mut, declare,
+        get, get_children, traverse, get_parent, try_get_by_name, get_displayable_name, get_by_name, get_mut, get_children_mut, declare,
     ],
     serves=["C15", "C03"],
     description="util::SymbolManager lookups: dot-level rule and dotted-path descent",
